@@ -40,6 +40,9 @@ def vec_of(reg):
     return None
 
 
+PCREL_T = ("R_X86_64_PC32", "R_X86_64_PLT32", "R_X86_64_GOTPCREL", "R_X86_64_GOTPCRELX", "R_X86_64_REX_GOTPCRELX")
+
+
 class Ins(object):
     __slots__ = ("sec", "addr", "size", "op", "text", "ndefs", "fl", "ops", "idefs", "iuses", "rel", "mem", "_msz")
 
@@ -128,6 +131,11 @@ class Ins(object):
         if self.ops and self.ops[0][0] == "i" and (self.is_branch() or self.is_call()) and not self.is_indirect():
             return self.next + self.ops[0][1]
         return None
+
+    def rel_target(self, obj, k=0):
+        """(secidx, addr, name) of relocation k of this instruction, resolved within obj."""
+        (off, sym, add_, rtype, ssec) = self.rel[k]
+        return obj.reloc_target(sym, add_, rtype, ssec, self.size, off)
 
     def __repr__(self):
         return "<%#x %s>" % (self.addr, self.text.strip())
@@ -260,6 +268,27 @@ class Obj(object):
         for s, rows in lines_tmp.items():
             rows.sort()
             self.lines[s] = ([r[0] for r in rows], [(r[1], r[2]) for r in rows])
+
+    def reloc_target(self, sym, addend, rtype, ssec, isz=0, off=0):
+        """Resolve a relocation to (secidx or -1, address, symbol name).  nasm emits references to local
+        symbols against the section symbol + addend; this maps them back to the named symbol at that address."""
+        a = addend + (isz - off) if rtype in PCREL_T else addend
+        if ssec >= 0:
+            base = 0
+            if not (sym == self.sections[ssec]["name"] or sym.startswith("sec:")):
+                for sm in self.symbols:
+                    if sm.name == sym and sm.sec == ssec and sm.kind == "DEF":
+                        base = sm.addr
+                        break
+            addr = base + a
+            nm = None
+            for sm in self.symtab.get((ssec, addr), []):
+                if sm.type != "O":
+                    nm = sm.name
+                    if sm.bind == "G":
+                        break
+            return (ssec, addr, nm)
+        return (-1, a, sym)
 
     def line_of(self, sec, addr):
         self.ins
